@@ -210,6 +210,43 @@ func (e *eng) extra(pa *pathRec, method, pos string, rep func(rule, what, detail
 			}
 		}
 	}
+	// T2m: operator lexeme -> opcode (language operator table)
+	if tn == "BinOp" || tn == "UnOp" {
+		want := map[string]string{"+": "ADD", "-": "SUB", "*": "MUL", "/": "DIV", "%": "MOD", "&": "AND", "&&": "AND", "|": "OR", "||": "OR",
+			"==": "EQ", "!=": "NE", "<": "LT", "<=": "LE", ">": "GT", ">=": "GE", "<<": "LSH", ">>": "RSH"}
+		if tn == "UnOp" {
+			want = map[string]string{"#": "LEN", "!": "NOT", "~": "FLIP", "-": "MUL"}
+		}
+		fams := map[string]bool{}
+		for _, w := range want {
+			fams[w] = true
+		}
+		got := ""
+		for i := range items {
+			n := strings.TrimSuffix(opName(i), "TMP")
+			if n == "PUSH" {
+				continue
+			}
+			if fams[n] || n == "SUB" || n == "ADD" || n == "DIV" || n == "MOD" || n == "AND" || n == "OR" || n == "EQ" || n == "NE" || n == "LT" || n == "LE" || n == "GT" || n == "GE" || n == "LSH" || n == "RSH" || n == "LEN" || n == "NOT" || n == "FLIP" || n == "MUL" {
+				got = n
+			}
+		}
+		if w, ok := want[pa.recvOp]; ok && got != "" && got != w {
+			rep("T2m", "operator "+pa.recvOp, fmt.Sprintf("the operator %q must be compiled to %s (or its TMP variant), the compiler emits %s", pa.recvOp, w, got))
+		}
+		if tn == "UnOp" && pa.recvOp == "-" {
+			// unary minus is multiplication by the literal -1: a constant -1 in the data segment
+			found := false
+			for _, d := range pa.ds {
+				if d.ctor == "NewInt" && len(d.args) == 1 && d.args[0] == "-1" {
+					found = true
+				}
+			}
+			if !found {
+				rep("T2m", "unary minus", "unary minus must multiply by the integer constant -1")
+			}
+		}
+	}
 	// B10: typed constants
 	for i, it := range items {
 		if it.ins == nil {
